@@ -66,7 +66,7 @@ const ruleText = "seq: case = fresh registry with 2-3 images x 1-4 eStargz layer
 	"(conc) at least two lookups on one image overlapped in time, or a lookup overlapped a release that reached zero; distinct by image shapes + operation script"
 
 func main() {
-	vf.Main("C16", "exploration", ruleText, 40, 600, body)
+	vf.Main("C16", "exploration", ruleText, 40, 250, body)
 }
 
 func quiet() {
@@ -101,9 +101,9 @@ var attribution = []string{"store."}
 var exclude = []string{"fs/layer.(*layer).Verify", "fs/layer.(*layer).Info"}
 
 func top(r *vf.Run) {
-	nSeq := r.N(200, 2400)
-	nConc := r.N(60, 360)
-	nFuse := r.N(16, 120)
+	nSeq := r.N(160, 800)
+	nConc := r.N(40, 110)
+	nFuse := r.N(16, 64)
 	if only := os.Getenv("C16_ONLY"); only != "" { // debugging aid: "stage:lo:hi", e.g. seq:8:9 (with C16_REPEAT=n)
 		f := strings.Split(only, ":")
 		if len(f) == 3 {
@@ -119,13 +119,13 @@ func top(r *vf.Run) {
 		walls[stage] = time.Since(t).Seconds()
 		r.Logf("stage %s done in %.1fs", stage, walls[stage])
 	}
-	timed("seq", func() { runBatches(r, "seq", nSeq, r.N(200, 400), false) })
-	timed("conc", func() { runBatches(r, "conc", nConc, r.N(60, 120), true) })
+	timed("seq", func() { runBatches(r, "seq", nSeq, r.N(160, 200), false) })
+	timed("conc", func() { runBatches(r, "conc", nConc, r.N(40, 55), true) })
 	defer func() { r.Set("stage_wall_s", walls) }()
 	if fuseProbe(r) {
 		stop := make(chan struct{})
 		go fuseReaper(r, stop)
-		timed("fuse", func() { runBatches(r, "fuse", nFuse, r.N(16, 60), false) })
+		timed("fuse", func() { runBatches(r, "fuse", nFuse, r.N(16, 32), false) })
 		close(stop)
 	} else {
 		r.Inconclusive("capability: FUSE mounts are not available; the fuse stage (store/fs.go through the kernel) was skipped")
